@@ -461,6 +461,9 @@ def rule_units(ctx, R):
     for t in find("while state < "):
         r = roles.of_origin(t.args[0])
         R.check(r == COUNT, "units:while", "the emitted loop bound is the number of blocks: %s" % r, t.where)
+        evw = Events(b, fb, roles=roles)
+        dl = [l for l in dominating_edge_labels(cfg, b, evw, t.block) if "is_empty(" in l and "State::get_stack" not in l and "BLOCKS" not in l]
+        R.check(all(l.endswith("=0") for l in dl) and len(dl) <= 1, "units:while:nonempty", "the main loop is emitted whenever the program has commands (the only guard may be `the command list is not empty`): %s" % [l[-30:] for l in dl], t.where)
     # start block
     for t in find("    state = "):
         r = roles.of_origin(t.args[0])
@@ -507,6 +510,47 @@ def rule_units(ctx, R):
             ok = len(pushes) >= 1 and all(p == IDX for p in pushes)
             R.check(ok, "units:last:table", "the command -> block table records, for every pre-executed command, the index of the block it was put in: %s" % pushes, t.where)
         R.check(bool(m), "units:last", "the pending ♡ target is emitted as a block index looked up in the command -> block table, not as the interpreter's command index: %s" % r[:90], t.where)
+    # ... and it records one entry for every pre-executed command: no iteration of the grouping loop bypasses the push
+    tab_ = [l for l, d in enumerate(b.locals) if d["ty"] == "std::vec::Vec<usize>" and l in b.local_names()]
+    tpush = [bi for bi, tt in b.calls() if callee_name(tt["f"], fb) == "std::vec::Vec::push" and vars_.root_key(tt["args"][0]) in [("L", x) for x in tab_]]
+    if R.anchor(bool(tpush), "units:last:pushes", "pushes into the command -> block table"):
+        lps = [(be, cfg.natural_loop(be)) for be in cfg.back_edges() if all(x in cfg.natural_loop(be) for x in tpush)]
+        if R.anchor(bool(lps), "units:last:loop", "the grouping loop that fills the command -> block table"):
+            be_, lp_ = min(lps, key=lambda x: len(x[1]))
+            hd_ = be_[1]
+            out_ = [x for x in range(len(b.blocks)) if x not in lp_]
+            # the element edge: successors of the head's iterator test that stay in the loop
+            sws = [x for x in lp_ if b.blocks[x]["term"]["k"] == "switch" and any(y not in lp_ for y in cfg.succ[x])]
+            stay_ = [y for x in sws for y in cfg.succ[x] if y in lp_]
+            R.check(bool(stay_) and not reaches_without(cfg, stay_, [hd_], cut_blocks=tpush + out_), "units:last:table_total", "every pre-executed command gets its entry in the command -> block table (no path through an iteration of the grouping loop avoids the push)", b.blocks[tpush[0]]["term"]["span"]["at"])
+    # every read or write of a label-table entry in the rewrite sweep is behind the bounds test of the cursor
+    evb = Events(b, fb, roles=roles)
+    n_idx = 0
+    for bi, tt in b.calls():
+        n_ = callee_name(tt["f"], fb)
+        if n_ in ("core::ops::index::Index::index", "core::ops::index::IndexMut::index_mut") and roles.of_operand(tt["args"][0], bi) == "State::get_all_point(STATE)":
+            n_idx += 1
+            ix = roles.of_operand(tt["args"][1], bi)
+            R.check("LT[%s,Vec::len(State::get_all_point(STATE))]=1" % ix in dominating_edge_labels(cfg, b, evb, bi), "units:point:bounded:%d" % n_idx, "the label table is indexed only behind the test cursor < number of labels (index %s)" % ix[:50], tt["span"]["at"])
+    # the emission loop visits every block and, inside it, every command of the block
+    its_ = {bi: roles.of_operand(tt["args"][0], bi) for bi, tt in b.calls() if callee_name(tt["f"], fb) == "core::iter::traits::collect::IntoIterator::into_iter"}
+    outer_ = [bi for bi, r_ in its_.items() if r_ in ("Range::Range{K0,Vec::len(BLOCKS)}", "ENUMERATE([T]::iter(BLOCKS))", "[T]::iter(BLOCKS)")]
+    inner_ = [bi for bi, r_ in its_.items() if r_ in ("Index::index(BLOCKS,ELEM)", "ELEM<ENUMERATE([T]::iter(BLOCKS))>.1", "ELEM<[T]::iter(BLOCKS)>")]
+    cmds_ = [(bi, tt) for bi, tt in b.calls() if callee_name(tt["f"], fb) == COMPILE + "command"]
+    ok_ = len(outer_) == 1 and len(inner_) == 1 and len(cmds_) == 1
+    why_ = "block loops %s, command loops %s, calls of command() %d" % ([its_[x] for x in outer_], [its_[x] for x in inner_], len(cmds_))
+    if ok_:
+        cb_, ct_ = cmds_[0]
+        item = roles.of_operand(ct_["args"][1], cb_)
+        lps = [(be, cfg.natural_loop(be)) for be in cfg.back_edges() if cb_ in cfg.natural_loop(be)]
+        be_, lp_ = min(lps, key=lambda x: len(x[1])) if lps else ((None, None), set())
+        ps_ = [bi for bi, tt in b.calls() if callee_name(tt["f"], fb).endswith("String::push_str") and bi in lp_ and "compile::command(" in roles.of_operand(tt["args"][1], bi)]
+        out_ = [x for x in range(len(b.blocks)) if x not in lp_]
+        sws = [x for x in lp_ if b.blocks[x]["term"]["k"] == "switch" and any(y not in lp_ for y in cfg.succ[x])]
+        stay_ = [y for x in sws for y in cfg.succ[x] if y in lp_]
+        ok_ = item.startswith("ELEM<") and ("BLOCKS" in item) and len(ps_) == 1 and bool(stay_) and not reaches_without(cfg, stay_, [be_[1]], cut_blocks=ps_ + out_) and reaches_without(cfg, [inner_[0]], cb_) and reaches_without(cfg, [outer_[0]], inner_[0])
+        why_ += ", item %s, appended %d time(s)" % (item[:50], len(ps_))
+    R.check(ok_, "units:emit:every_command", "the emitted loop body holds every block (0 .. number of blocks) and, for each block, the code of every command in it, appended to the output: %s" % why_, cmds_[0][1]["span"]["at"] if cmds_ else None)
     # label table
     for t in find("point.insert("):
         rs = [roles.of_origin(a) for a in t.args]
@@ -620,7 +664,7 @@ def rule_units(ctx, R):
                 covered = not feas_avoiding
             except RuntimeError:
                 pass
-        ok = want_s in txt and other_s not in txt and not any(other_s in l for l in labs) and all(l.endswith("=0") for l in labs if want_s in l) and covered
+        ok = want_s in txt and other_s not in txt and all(want_s in l for l in labs) and all(l.endswith("=0") for l in labs) and covered
         R.check(ok, "units:preout:stack%s" % k_, "the text pre-execution wrote to stack %s is emitted through %s (never guarded by the emptiness of the other stack), and every run that emits it also clears that stack: text from %s, guards %s, clears of it %d" % (k_, fn_.rsplit("::", 1)[-1], txt[:60], [l[-40:] for l in labs], len(cl_same)), t["span"]["at"])
     # how commands are grouped into blocks, as a decision table per command: an area-carrying command is the last of
     # its block (it starts a new block unless the open one is empty, and a fresh empty block is opened after it); any
@@ -730,6 +774,8 @@ def rule_units(ctx, R):
                         if lab and lab[:3] in ("BR[", "LT[", "EQ["):
                             conds.add(lab.rsplit("=", 1)[0])
             R.check(conds == {"BR[Vec::is_empty(State::get_stack(STATE,%s))]" % m0}, "units:restore_all", "every non-empty stack of the pre-executed state is restored (the only skip is an empty stack): %s" % sorted(c[:90] for c in conds), t.where)
+            dl = [l for l in dominating_edge_labels(cfg, b, evr, t.block) if "Vec::is_empty(State::get_stack(STATE," in l and "get_all_stack_index" in l]
+            R.check(dl == ["BR[Vec::is_empty(State::get_stack(STATE,%s))]=0" % m0], "units:restore_nonempty", "a restore line is emitted for the stacks that are not empty (an empty `vec![]` line would not even type-check): %s" % [l[-30:] for l in dl], t.where)
         R.check("Num::from_string(x.to_string())" in t.skeleton(), "units:restore_reader", "restored values are read back with Num::from_string (the inverse of the writer, C09)", t.where)
     R.floor("control_templates", len(find("while state < ")) + len(find("    state = ")) + len(find("Some(")) + len(find("point.insert(")), 4, "templates that emit control targets")
 
@@ -853,3 +899,144 @@ def rule_levels(ctx, R):
 
 
 RULES.append(("C03.LEVELS", "the level chosen on the command line selects the optimised / unoptimised path and is handed through unchanged", rule_levels))
+
+
+RULES.append(("C03.STATEAPI", "the accessors build_source reads the pre-state through (all stack indices, all labels, the selected stack, the jump source) return exactly what the state holds (shared with C01.STATEAPI)", p_c01.rule_stateapi))
+RULES.append(("C03.WINDOW", "pre-execution reads no command past the log (shared with C02.WINDOW)", p_c02.rule_window))
+
+
+def rule_dispatch(ctx, R):
+    """the emitted main loop finds the block to run by a binary tree of `if state < m { .. } else { .. }`.  The
+    generator is an explicit-stack walk over index ranges; its event language (stack operations, templates appended,
+    branch outcomes) must equal the reference walk, which emits a correct search tree (DESIGN.md section 12)."""
+    from .emitlang import EmitEvents
+    from .interp import language
+    from .gea import Seq, Star, Alt
+    fb = ctx.fb
+    b = fb.bodies.get(COMPILE + "build_source")
+    if not R.anchor(b is not None, "build_source", "compile::build_source"):
+        return
+    R.analyse(b.name)
+    cfg = normal_cfg(b)
+    blocks = [l for l, d in enumerate(b.locals) if d["ty"].startswith("std::vec::Vec<std::vec::Vec<") and l in b.local_names()]
+    stk = [l for l, d in enumerate(b.locals) if d["ty"] == "std::vec::Vec<(usize, bool)>" and l in b.local_names()]
+    if not R.anchor(len(blocks) == 1 and len(stk) == 1, "dispatch:stack", "the vector of blocks and the explicit stack of (range size, is right half) pairs"):
+        return
+    roles = Roles(b, fb, param_roles={1: "STATE", 2: "CODE", 3: "LEVEL"}, overrides={blocks[0]: "BLOCKS", stk[0]: "STK"})
+    its = {bi: roles.of_operand(t["args"][0], bi) for bi, t in b.calls() if callee_name(t["f"], fb) == "core::iter::traits::collect::IntoIterator::into_iter"}
+    ent = [bi for bi, r in its.items() if r == "Range::Range{K0,Vec::len(BLOCKS)}"]
+    if not R.anchor(len(ent) == 1, "dispatch:loop", "the loop over the block indices 0 .. number of blocks"):
+        return
+    cands = [(be, cfg.natural_loop(be)) for be in cfg.back_edges() if be[1] in cfg.reachable_from(ent[0])]
+    be, loop = max(cands, key=lambda x: len(x[1]))
+    exits = [s_ for x in loop for s_ in cfg.succ[x] if s_ not in loop]
+    # the stack starts with the whole range, not marked as a right half
+    plain = Roles(b, fb, param_roles={1: "STATE", 2: "CODE", 3: "LEVEL"}, overrides={blocks[0]: "BLOCKS"})
+    vars_ = Vars(b)
+    inits = []
+    for bi, blk in enumerate(b.blocks):
+        if blk["cleanup"] or bi in loop:
+            continue
+        for si, st in enumerate(blk["stmts"]):
+            if st["k"] == "assign" and st["r"]["k"] == "agg" and st["r"].get("agg") == "tuple" and not st["p"]["proj"] and b.lty(st["p"]["l"]) == "(usize, bool)":
+                inits.append(plain.of_origin(plain.org.of_rvalue(st["r"], bi, si)))
+    pushes_out = [bi for bi, t in b.calls() if bi not in loop and callee_name(t["f"], fb) == "std::vec::Vec::push" and vars_.root_key(t["args"][0]) == ("L", stk[0])]
+    R.check(inits == ["tuple{Vec::len(BLOCKS),K0}"] and not pushes_out, "dispatch:init", "the walk starts with one range holding all blocks, not marked as a right half: %s" % [x[:120] for x in inits], b.span)
+    mk = {vars_.root_key(t["args"][0]) for bi, t in b.calls() if callee_name(t["f"], fb) == COMPILE + "make_indent" and bi in loop}
+    mk = {k[1] for k in mk if k and k[0] == "L" and b.lty(k[1]) == "usize" and k[1] in b.local_names()}
+    if not R.anchor(len(mk) == 1, "dispatch:indent", "the indentation counter of the emission loop"):
+        return
+    roles = Roles(b, fb, param_roles={1: "STATE", 2: "CODE", 3: "LEVEL"}, overrides={blocks[0]: "BLOCKS", stk[0]: "STK", list(mk)[0]: "INDENT"})
+    ev = EmitEvents(b, fb, roles, "STK")
+    ev.indent_local = list(mk)[0]
+
+    def canon(lab):
+        # ELEM ranges over 0 .. number of blocks: `ELEM + 1 < n` is `ELEM != n - 1`
+        for v in ("0", "1"):
+            if lab == "LT[(ELEM Add K1),Vec::len(BLOCKS)]=" + v:
+                return "EQ[(Vec::len(BLOCKS) Sub K1),ELEM]=" + ("1" if v == "0" else "0")
+        return lab
+    ev.canon = canon
+    d = language(b, fb, cfg, ent[0], exits, ev)
+    L0, L1, L2 = "UNWRAP([T]::last(STK)).0", "UNWRAP([T]::last(STK)).1", "Vec::len(STK)"
+    LASTB = "EQ[(Vec::len(BLOCKS) Sub K1),ELEM]"
+    specs = []
+    for k, form in ((1, "a"), (1, "b"), (2, "a"), (2, "b"), (4, "a"), (4, "b")):
+        descend = Seq("LAST", "LT[%s,K2]=0" % L0, "LAST", "PUSH(tuple{(%s Div K2),K0})" % L0, "LAST", "EMIT(\\n{0}if state < {1} {|make_indent(INDENT),(ELEM Add %s))" % L0, "APPEND(text)", "INDENT+=%d" % k)
+        leaf = Seq("LAST", "LT[%s,K2]=1" % L0, "Index::index(BLOCKS,ELEM)", "ITER(Index::index(BLOCKS,ELEM))", Star(Seq("CMD(ELEM<Index::index(BLOCKS,ELEM)>)", "APPEND(command)")))
+        close = Seq("LT[%s,K2]=0" % L2, "LAST", "BR[%s]=1" % L1, "POP", "INDENT-=%d" % k, "EMIT(\\n{0}}|make_indent(INDENT))", "APPEND(text)")
+        stop = Alt("LT[%s,K2]=1" % L2, Seq("LT[%s,K2]=0" % L2, "LAST", "BR[%s]=0" % L1))
+        els = Seq("EMIT(\\n{0}} else {|make_indent((INDENT Sub K%d)))" % k, "APPEND(text)") if form == "b" else Seq("INDENT-=%d" % k, "EMIT(\\n{0}} else {|make_indent(INDENT))", "APPEND(text)", "INDENT+=%d" % k)
+        nxt = Alt(LASTB + "=1", Seq(LASTB + "=0", "POP", "LAST", "PUSH(tuple{(%s Sub UNWRAP(Vec::pop(STK)).0),K1})" % L0, els))
+        specs.append(Seq("ITER(Range::Range{K0,Vec::len(BLOCKS)})", Star(Seq(Star(descend), leaf, Star(close), stop, nxt))))
+    p_c01.check_lang_any(R, "dispatch:walk", "the generator of the block dispatch tree (halve the range and open `if state < first + half` until one block is left; emit the block; close every finished right half; turn the finished left half into its right sibling with `} else {`; the indentation counter moves up and down by the same step)", d, specs, b.blocks[ent[0]]["term"]["span"]["at"])
+
+
+RULES.append(("C03.DISPATCH", "the emitted block dispatch is the binary search tree over the block indices (generator recognised as the reference explicit-stack walk)", rule_dispatch))
+
+
+def rule_areaemit(ctx, R):
+    """the comparison tree of a command's area is emitted by an explicit-stack walk (node, sibling, is right child):
+    a `?`/`!` node opens `match stack.pop(cur).partial_cmp(count) { Some(Less|Equal) => {`, its left child is emitted,
+    `} _ => {` turns to the right child, finished right children are closed; a leaf emits the label or return jump.
+    The walk's event language must equal the reference walk."""
+    from .emitlang import EmitEvents
+    from .interp import language
+    from .gea import Seq, Star, Alt
+    fb = ctx.fb
+    b = fb.bodies.get(COMPILE + "area")
+    if not R.anchor(b is not None, "area", "compile::area"):
+        return
+    R.analyse(b.name)
+    cfg = normal_cfg(b)
+    stk = [l for l in b.local_names() if b.lty(l).startswith("std::vec::Vec<(&") and "Area" in b.lty(l)]
+    if not R.anchor(len(stk) == 1, "areaemit:stack", "the explicit stack of (node, sibling, is right child)"):
+        return
+    roles = Roles(b, fb, param_roles={2: "AREA", 3: "COUNT"}, overrides={stk[0]: "STK", 1: "INDENT"})
+    ev = EmitEvents(b, fb, roles, "STK")
+    ev.indent_local = 1
+    ev.ret_events = True
+    # which of Less / Equal is printed is a choice of text, not a step of the walk (C03.AREA binds it to the node kind)
+    ev.canon = lambda lab: None if (lab.startswith("EQ[K0,UNWRAP([T]::last(STK)).0@Val.type_]") or lab.startswith("SW[UNWRAP([T]::last(STK)).0@Val.type_]")) else lab
+    d = language(b, fb, cfg, 0, cfg.returns, ev, stop_at_exit=False)
+    N = "UNWRAP([T]::last(STK)).0"
+    T_ = N + "@Val.type_"
+    LEN = "Vec::len(STK)"
+    # the five templates, by what they are (their meaning is C03.AREA's business)
+    E = {}
+    for bi, tp in ev.tpl.items():
+        sk = tp.skeleton()
+        k_ = "MATCH" if "partial_cmp" in sk else "LABEL" if "point.entry(" in sk else "RETURN" if "= last {" in sk else "ELSE" if "_ => {" in sk else "CLOSE" if sk.strip().replace(" ", "").replace("\n", "").replace("{0}", "") == "}}" else None
+        if k_:
+            E.setdefault(k_, []).append(ev.term(bi, b.blocks[bi]["term"]))
+    if not R.anchor(all(len(E.get(k_, [])) == 1 for k_ in ("MATCH", "LABEL", "RETURN", "ELSE", "CLOSE")), "areaemit:templates", "the five templates of the comparison tree (match head, label jump, return jump, else arm, closing braces): %s" % {k_: len(v) for k_, v in E.items()}):
+        return
+    E = {k_: v[0] for k_, v in E.items()}
+    R.check(E["MATCH"].endswith("|make_indent(INDENT),COUNT,PHI(K'Equal'|K'Less'))") and E["LABEL"].endswith("|make_indent(INDENT),((COUNT Shl K4) Add %s))" % T_), "areaemit:args", "the comparison is made with the command's area count and the label key is (area count << 4) + heart kind of the leaf being emitted")
+    specs = []
+    for k, form in ((1, "a"), (1, "b"), (2, "a"), (2, "b")):
+        node = Seq("LAST", "SW[DISCR(%s)]=0" % N, "LT[%s,K2]=1" % T_, "PUSH(tuple{%s@Val.left.0.pointer,%s@Val.right.0.pointer,K0})" % (N, N),
+                   E["MATCH"], "APPEND(text)", "INDENT+=%d" % (2 * k))
+        leaf = Alt(
+            Seq("LAST", "SW[DISCR(%s)]=1" % N),
+            Seq("LAST", "SW[DISCR(%s)]=0" % N, "LT[%s,K2]=0" % T_, "LT[%s,K13]=1" % T_, E["LABEL"], "APPEND(text)"),
+            Seq("LAST", "SW[DISCR(%s)]=0" % N, "LT[%s,K2]=0" % T_, "LT[%s,K13]=0" % T_, E["RETURN"], "APPEND(text)"))
+        close = Seq("LT[%s,K2]=0" % LEN, "LAST", "BR[UNWRAP([T]::last(STK)).2]=1", "POP", "INDENT-=%d" % (2 * k), E["CLOSE"], "APPEND(text)")
+        stop = Alt("LT[%s,K2]=1" % LEN, Seq("LT[%s,K2]=0" % LEN, "LAST", "BR[UNWRAP([T]::last(STK)).2]=0"))
+        # the else arm is one step less indented: the counter is moved down and up again, or the text is built from counter - step
+        els = Seq("INDENT-=%d" % k, E["ELSE"], "APPEND(text)", "INDENT+=%d" % k) if form == "a" else Seq(E["ELSE"].replace("make_indent(INDENT)", "make_indent((INDENT Sub K%d))" % k), "APPEND(text)")
+        turn = Seq("LT[%s,K2]=0" % LEN, "POP", "PUSH(tuple{UNWRAP(Vec::pop(STK)).1,UNWRAP(Vec::pop(STK)).0,K1})", els)
+        specs.append(Seq(Star(Seq(Star(node), leaf, Star(close), stop, turn)), Star(node), leaf, Star(close), stop, "LT[%s,K2]=1" % LEN, "RET(String::new())"))
+    inits = []
+    in_loops = set().union(*[cfg.natural_loop(be) for be in cfg.back_edges()]) if cfg.back_edges() else set()
+    for bi, blk in enumerate(b.blocks):
+        if blk["cleanup"] or bi in in_loops:
+            continue
+        for si, st in enumerate(blk["stmts"]):
+            if st["k"] == "assign" and st["r"]["k"] == "agg" and st["r"].get("agg") == "tuple" and not st["p"]["proj"] and b.lty(st["p"]["l"]).startswith("(&") and b.lty(st["p"]["l"]).endswith("bool)"):
+                inits.append(roles.of_origin(roles.org.of_rvalue(st["r"], bi, si)))
+    R.check(len(inits) == 1 and inits[0].startswith("tuple{AREA,") and inits[0].endswith(",K0}"), "areaemit:init", "the walk starts at the root of the command's area, not marked as a right child: %s" % inits, b.span)
+    p_c01.check_lang_any(R, "areaemit:walk", "the generator of a command's comparison tree", d, specs, b.span)
+
+
+RULES.append(("C03.AREAEMIT", "the emitted comparison tree of an area is the area's tree (generator recognised as the reference explicit-stack walk)", rule_areaemit))
